@@ -246,6 +246,9 @@ class RunId(object):
     def is_persisted_by(self, persistence):
         return persistence in self._persistence
 
+    def is_reported_by(self, reporter):
+        return reporter in self._reporters
+
     def add_persistence(self, persistence):
         self._persistence.add(persistence)
 
